@@ -16,7 +16,7 @@
 From Coq Require Import List Arith Permutation Floats ZArith QArith Qcanon.
 Require String.
 From TK Require Import Mat_Sums Mat_Core Mat_Qc Landmark_Model Landmark_Float Landmark_Spec
-  Landmark_Proof_Trace Landmark_Proof_Euclid Landmark_Proof_Main Landmark_Proof_Float
+  Landmark_Proof_Trace Landmark_Proof_Euclid Landmark_Proof_Main Landmark_Proof_Ratio Landmark_Proof_Exec Landmark_Proof_Float
   Landmark_Proof_Examples.
 Import ListNotations.
 Import String.StringSyntax.
@@ -154,6 +154,75 @@ Theorem lmds_no_oob : forall (F : Type) (Fo : FieldOps F) (Ff : IsField F)
 Proof. exact @lmds_total_lemma. Qed.
 Print Assumptions lmds_no_oob.
 
+(* T12 Landmark Isomap, dense branch: Y = B^T U diag(1/q) with B the doubly centred (row means AND
+   column means) squared landmark geodesics times -1/2; under the solver contract for B B^T and
+   q^4 = lam the columns of Y are orthogonal with squared norm sqrt(lam) and are eigenvectors of
+   B^T B for lam. *)
+Theorem lisomap_dense_formula : forall (F : Type) (Fo : FieldOps F) (Ff : IsField F)
+    (N L d : nat) (G W : mat F) (w q : vec F) (Y : mat F),
+  lisomap_embed N L d G W w q = LOk Y ->
+  let B := lisomap_matrix L N G in
+  let U := sel_vecs L d W in let lam := sel_vals L d w in
+  d <= L /\
+  (forall j c, Y j c = (sumn L (fun k => B k j * U k c) / q c)%F) /\
+  (lm_eig_contract L d (lisomap_sym N B) U lam ->
+   (forall c, c < d -> (q c * q c * (q c * q c))%F = lam c) ->
+   (forall c, c < d -> q c <> 0%F) ->
+   meq d d (mmul N (mtrans Y) Y) (mdiag (fun c => (q c * q c)%F)) /\
+   meq N d (mmul N (mmul L (mtrans B) B) Y) (mmul d Y (mdiag lam))).
+Proof. exact @lisomap_dense_formula_lemma. Qed.
+Print Assumptions lisomap_dense_formula.
+
+Example lisomap_dense_formula_nonvacuous :
+  exists Y, lisomap_embed 3 2 1 (mof [[qz 0; qz 1; qz 2]; [qz 1; qz 0; qz 1]])
+                          (fun _ _ => qz 1) (fun _ => qz 1) (fun _ => qz 1) = LOk Y.
+Proof. exact lisomap_runs. Qed.
+
+(* T13 ratio = 1, Landmark MDS.  With every sample a landmark, in ANY order, and a symmetric
+   callback: (1) the output is literally MDS's output for the un-permuted solver answer
+   Wp a = W (position of a); (2) if the answer met the solver contract for Landmark MDS's matrix
+   then Wp meets it for MDS's matrix.  PARTIAL: "coincide up to column signs" additionally needs
+   uniqueness of unit eigenvectors for simple eigenvalues, which is not formalised here. *)
+Theorem ratio_one_lmds_partial : forall (F : Type) (Fo : FieldOps F) (Ff : IsField F)
+    (N d : nat) (lm : list nat) (dist W : mat F) (w s : vec F) (ws : list (nat * vec F)),
+  Permutation lm (seq 0 N) ->
+  (forall a b, a < N -> b < N -> dist a b = dist b a) ->
+  lmds_embed N d lm dist W w s = LOk ws ->
+  let Wp : mat F := fun a c => W (pos_of lm a) c in
+  (exists Y0, mds_embed N d Wp w s = LOk Y0 /\
+              forall a, a < N -> last_write ws a = Some (mrow Y0 a)) /\
+  (lm_eig_contract N d (lmds_matrix lm dist) (sel_vecs N d W) (sel_vals N d w) ->
+   lm_eig_contract N d (mds_matrix_full N dist) (sel_vecs N d Wp) (sel_vals N d w)).
+Proof. exact @ratio_one_lmds_partial_lemma. Qed.
+Print Assumptions ratio_one_lmds_partial.
+
+Example ratio_one_lmds_partial_nonvacuous :
+  Permutation ex_perm (seq 0 6) /\
+  (forall a b, a < 6 -> b < 6 -> ex_dist a b = ex_dist b a) /\
+  exists ws, lmds_embed 6 1 ex_perm ex_dist ex_W ex_w ex_s = LOk ws.
+Proof. exact ratio_one_nonvacuous. Qed.
+
+(* T14 ratio = 1, Landmark Isomap (dense).  With symmetric geodesics G and every sample a
+   landmark the matrix B is Isomap's matrix with permuted rows; if the un-permuted selected
+   vectors Up are eigenvectors of Isomap's matrix for eigenvalues nu = s^2 with q = s <> 0, the
+   output is Isomap's output Up diag(s).  PARTIAL: that hypothesis is assumed, not derived —
+   Landmark Isomap selects the d largest eigenvalues of B B^T, i.e. the d largest |nu|, Isomap the
+   d largest nu; they differ when the geodesic Gram matrix has a negative eigenvalue of large
+   magnitude (the check compares only when the leading spectrum is positive, simple and leading
+   in magnitude). *)
+Theorem ratio_one_lisomap_partial : forall (F : Type) (Fo : FieldOps F) (Ff : IsField F)
+    (N d : nat) (lm : list nat) (G W : mat F) (w q : vec F) (Y : mat F),
+  Permutation lm (seq 0 N) -> of_nat N <> 0%F -> @two F Fo <> 0%F ->
+  (forall x y, x < N -> y < N -> G x y = G y x) ->
+  lisomap_embed N N d (fun a b => G (lmk lm a) b) W w q = LOk Y ->
+  let Up : mat F := fun a c => sel_vecs N d W (pos_of lm a) c in
+  forall (nu s : vec F),
+    meq N d (mmul N (isomap_matrix N G) Up) (mmul d Up (mdiag nu)) ->
+    (forall c, c < d -> (s c * s c)%F = nu c /\ q c = s c /\ s c <> 0%F) ->
+    forall j c, j < N -> c < d -> Y j c = scale_by Up s j c.
+Proof. exact @ratio_one_lisomap_partial_lemma. Qed.
+Print Assumptions ratio_one_lisomap_partial.
+
 Local Open Scope string_scope.
 (* T10 bounds, CURRENT code (fix F21, b4b2738): a request accepted by the constructor and by
    validate() has target_dimension <= count <= N for the landmark count the code computes, so the
@@ -197,3 +266,48 @@ Proof.
   exact (conj (proj1 f21_validate_witness) (conj (proj1 (proj2 f21_validate_witness))
           (conj (proj1 f21_float_witness) (conj (proj2 f21_float_witness) lmds_bounds_witness)))).
 Qed.
+
+(* ---- T15-T19: what is extracted and run is what the theorems are about ------------------ *)
+(* the memoised list versions printed by the model driver (streams T/A and I) are the
+   function-level model *)
+Theorem exec_lmds_stages : forall (F : Type) (Fo : FieldOps F) (lm : list nat) (Ldist : list (list F)),
+  let L := length lm in
+  lmds_stages_exec lm Ldist =
+    (mtab L L (landmark_dist_sq lm (mof Ldist)),
+     vtab L (landmark_mu L (landmark_dist_sq lm (mof Ldist))),
+     mtab L L (lmds_matrix lm (mof Ldist))).
+Proof. exact @lmds_stages_exec_ok. Qed.
+Print Assumptions exec_lmds_stages.
+
+Theorem exec_lisomap_matrix : forall (F : Type) (Fo : FieldOps F) (L N : nat) (LG : list (list F)),
+  lisomap_matrix_exec L N LG = mtab L N (lisomap_matrix L N (mof LG)).
+Proof. exact @lisomap_matrix_exec_ok. Qed.
+Print Assumptions exec_lisomap_matrix.
+
+Theorem exec_lisomap_embed : forall (F : Type) (Fo : FieldOps F) (N L d : nat) (LG : list (list F))
+    (W : mat F) (w q : vec F) (Y : mat F),
+  lisomap_embed N L d (mof LG) W w q = LOk Y ->
+  lisomap_embed_exec N L d LG (mtab L d (fun r c => W r (L - d + c))) (vtab d q) = mtab N d Y.
+Proof. exact @lisomap_embed_exec_ok. Qed.
+Print Assumptions exec_lisomap_embed.
+
+(* the boolean decision procedures the check applies to the implementation's own output *)
+Theorem spec_landmarks_okb : forall N count lm,
+  landmarks_okb N count lm = true <-> landmarks_ok N count lm.
+Proof. exact landmarks_okb_ok. Qed.
+Print Assumptions spec_landmarks_okb.
+
+Theorem spec_dist_reproduced_b : forall N d tol Y Ldist,
+  lm_dist_reproduced_b N d tol Y Ldist = Some true ->
+  forall a b, a < N -> b < N ->
+    (lm_qabs (lm_sqdist d (mof Y) a b - mof Ldist a b * mof Ldist a b) <= tol)%Qc.
+Proof. exact lm_dist_reproduced_b_sound. Qed.
+Print Assumptions spec_dist_reproduced_b.
+
+Theorem spec_same_upto_sign_b : forall N d tol Y Z,
+  lm_same_upto_sign_b N d tol Y Z = Some true ->
+  forall c, c < d ->
+    (forall a, a < N -> (lm_qabs (mof Y a c - mof Z a c) <= tol)%Qc) \/
+    (forall a, a < N -> (lm_qabs (mof Y a c + mof Z a c) <= tol)%Qc).
+Proof. exact lm_same_upto_sign_b_sound. Qed.
+Print Assumptions spec_same_upto_sign_b.
